@@ -71,6 +71,19 @@ def corpus():
             continue
         items.append({'name': os.path.relpath(path, root), 'path': path,
                       'base': os.path.basename(path), 'data': data})
+    # the listings of the documentation's notebooks (other responses than
+    # those of the test data: extended meshes, ...); a few crash points each
+    docs = os.path.join(load.repo_path(), 'doc')
+    for path in sorted(glob.glob(os.path.join(docs, '**', '*.res*'),
+                                 recursive=True)):
+        if not os.path.isfile(path) or path.endswith('.mesure') or \
+                not 0 < os.path.getsize(path) < 600000:
+            continue
+        with open(path, 'rb') as fil:
+            data = fil.read()
+        items.append({'name': os.path.relpath(path, load.repo_path()),
+                      'path': None, 'base': 'doc-' + os.path.basename(path),
+                      'data': data, 'light': True})
     items.extend(synthetic(items))
     from checks import c11_handmade
     items.extend(c11_handmade.listings())
